@@ -38,27 +38,46 @@ theorem nor2_spec (aw rw a b : Nat) (h : rw ≤ aw ∨ (a < 2 ^ aw ∧ b < 2 ^ a
       · simp [h1, h2, testBit_false_of_lt h.1 (by omega : aw ≤ i), testBit_false_of_lt h.2 (by omega : aw ≤ i)]
   · simp [h1]
 
-theorem testBit_xor2 (aw bw rw a b i : Nat) (hrw : rw ≤ aw) (hb : b < 2 ^ bw) :
+theorem testBit_xor2 (aw bw rw a b i : Nat) (ha : rw ≤ aw ∨ a < 2 ^ aw) (hb : b < 2 ^ bw) :
     (Lib.xor2 aw bw rw a b).testBit i = (decide (i < rw) && (a.testBit i ^^ b.testBit i)) := by
   simp only [Lib.xor2, testBit_nand2]
   by_cases h1 : i < rw
-  · have h2 : i < aw := by omega
-    by_cases h3 : i < bw
-    · simp only [h1, h2, h3, decide_true, Bool.true_and]
-      cases a.testBit i <;> cases b.testBit i <;> rfl
-    · have : b.testBit i = false := testBit_false_of_lt hb (by omega)
-      simp only [h1, h2, h3, this, decide_true, decide_false, Bool.true_and]
-      cases a.testBit i <;> rfl
+  · have ea : ∀ t : Bool, (decide (i < aw) && (a.testBit i && t)) = (a.testBit i && t) := by
+      intro t
+      by_cases h2 : i < aw
+      · simp [h2]
+      · rcases ha with ha | ha
+        · omega
+        · simp [h2, testBit_false_of_lt ha (by omega : aw ≤ i)]
+    have eb : ∀ t : Bool, (decide (i < bw) && (b.testBit i && t)) = (b.testBit i && t) := by
+      intro t
+      by_cases h3 : i < bw
+      · simp [h3]
+      · simp [h3, testBit_false_of_lt hb (by omega : bw ≤ i)]
+    simp only [ea, eb, h1, decide_true, Bool.true_and]
+    cases a.testBit i <;> cases b.testBit i <;> rfl
   · simp [h1]
 
-/-- Xor2 (four NANDs): `r` not wider than `a` (otherwise the upper bits of `r` read 1, see `xor2_wide_counterexample`) -/
-theorem xor2_spec (aw bw rw a b : Nat) (hrw : rw ≤ aw) (hb : b < 2 ^ bw) : Lib.xor2 aw bw rw a b = LSpec.xorN rw [a, b] := by
+/-- Xor2 (four NANDs): EVERY combination of operand and result widths (operands inside their wires, C06).
+    Before /repo commit 4cfd4ac the internal wires had the width of `a` and the statement needed `rw ≤ aw`; the former
+    negative fact was
+      theorem xor2_wide_counterexample : Lib.xor2 2 2 4 1 3 = 14 ∧ LSpec.xorN 4 [1, 3] = 2
+    (upper result bits read 1 when `r` is wider than `a`); it no longer holds, see `xor2_wide_fixed`. -/
+theorem xor2_spec (aw bw rw a b : Nat) (ha : a < 2 ^ aw) (hb : b < 2 ^ bw) : Lib.xor2 aw bw rw a b = LSpec.xorN rw [a, b] := by
   apply eq_ofBitFn
   intro i
-  rw [testBit_xor2 aw bw rw a b i hrw hb]
+  rw [testBit_xor2 aw bw rw a b i (Or.inr ha) hb]
   simp
 
-theorem xor2_wide_counterexample : Lib.xor2 2 2 4 1 3 = 14 ∧ LSpec.xorN 4 [1, 3] = 2 := by decide
+/-- the result is `(a ^ b) mod 2^rw` -/
+theorem xor2_val (aw bw rw a b : Nat) (ha : a < 2 ^ aw) (hb : b < 2 ^ bw) : Lib.xor2 aw bw rw a b = (a ^^^ b) % 2 ^ rw := by
+  apply Nat.eq_of_testBit_eq
+  intro i
+  rw [testBit_xor2 aw bw rw a b i (Or.inr ha) hb]
+  simp
+
+/-- the witnesses of the repaired defect C08-xor2-wide (result wire wider than operand `a`) now give `a ^ b` -/
+theorem xor2_wide_fixed : Lib.xor2 8 10 9 122 1 = 123 ∧ Lib.xor2 2 2 4 1 3 = 2 ∧ LSpec.xorN 4 [1, 3] = 2 := by decide
 
 theorem testBit_xor_ladder (rw i : Nat) (rest : List (Nat × Nat)) (acc : Nat) (x : Nat × Nat)
     (h : ∀ y ∈ x :: rest, y.2 < 2 ^ y.1) :
@@ -67,49 +86,49 @@ theorem testBit_xor_ladder (rw i : Nat) (rest : List (Nat × Nat)) (acc : Nat) (
   induction rest generalizing acc x with
   | nil =>
     simp only [List.foldl_cons, List.foldl_nil]
-    exact testBit_xor2 rw x.1 rw acc x.2 i (Nat.le_refl _) (h x (by simp))
+    exact testBit_xor2 rw x.1 rw acc x.2 i (Or.inl (Nat.le_refl _)) (h x (by simp))
   | cons y rest ih =>
     rw [List.foldl_cons, ih _ _ (fun z hz => h z (by simp at hz ⊢; right; exact hz))]
-    rw [testBit_xor2 rw x.1 rw acc x.2 i (Nat.le_refl _) (h x (by simp))]
+    rw [testBit_xor2 rw x.1 rw acc x.2 i (Or.inl (Nat.le_refl _)) (h x (by simp))]
     by_cases h1 : i < rw
     · simp [h1]
     · simp [h1]
 
-/-- Xor(ins, r), every arity ≥ 2: parity per bit position.  `r` not wider than the first input; every input value fits
-    its own wire (C06). -/
-theorem xorN_spec (rw : Nat) (ins : List (Nat × Nat)) (hlen : 2 ≤ ins.length) (hrw : rw ≤ (ins.headD (0, 0)).1)
+/-- Xor(ins, r), every arity ≥ 2, every combination of input and result widths: parity per bit position (every input
+    value fits its own wire, C06). -/
+theorem xorN_spec (rw : Nat) (ins : List (Nat × Nat)) (hlen : 2 ≤ ins.length)
     (h : ∀ y ∈ ins, y.2 < 2 ^ y.1) : Lib.xorN rw ins = LSpec.xorN rw (ins.map (·.2)) := by
   apply eq_ofBitFn
   intro i
   match ins, hlen with
   | [a, b], _ =>
     simp only [Lib.xorN]
-    rw [testBit_xor2 _ _ _ _ _ _ (by simpa using hrw) (h b (by simp))]
+    rw [testBit_xor2 _ _ _ _ _ _ (Or.inr (h a (by simp))) (h b (by simp))]
     simp
   | a :: b :: c :: rest, _ =>
     simp only [Lib.xorN]
     rw [List.foldl_cons, testBit_xor_ladder rw i rest _ c (fun z hz => h z (by simp at hz ⊢; right; right; exact hz))]
-    rw [testBit_xor2 _ _ _ _ _ _ (by simpa using hrw) (h b (by simp))]
+    rw [testBit_xor2 _ _ _ _ _ _ (Or.inr (h a (by simp))) (h b (by simp))]
     by_cases h1 : i < rw
     · simp only [h1, decide_true, Bool.true_and, List.map_cons, List.foldl_cons, Bool.false_xor, List.foldl_map]
     · simp [h1]
 
-theorem norN_spec (w0 rw : Nat) (ins : List Nat) (hne : ins ≠ []) (h : rw ≤ w0 ∨ ∀ x ∈ ins, x < 2 ^ w0) :
-    Lib.norN w0 rw ins = LSpec.norN rw ins := by
+/-- Nor(ins, r): every arity ≥ 1, EVERY combination of input and result widths.
+    Before /repo commit 5a57ad0 `Mid` had the width `w0` of the first input and the statement needed
+    `rw ≤ w0 ∨ ∀ x ∈ ins, x < 2 ^ w0`; outside it (former witness: inputs of 6,7,8,4 bits = 41,54,127,1, `r` 8 bits) the result
+    was 192 instead of 128, see `norN_wide_fixed`. -/
+theorem norN_spec (rw : Nat) (ins : List Nat) (hne : ins ≠ []) : Lib.norN rw ins = LSpec.norN rw ins := by
   apply eq_ofBitFn
   intro i
-  simp only [Lib.norN, testBit_not1, testBit_orN w0 i ins hne]
-  by_cases h1 : i < rw
-  · by_cases h2 : i < w0
-    · simp [h1, h2]
-    · rcases h with h | h
-      · omega
-      · have : ins.any (·.testBit i) = false := by
-          rw [List.any_eq_false]
-          intro x hx
-          simp [testBit_false_of_lt (h x hx) (by omega : w0 ≤ i)]
-        simp [h1, h2, this]
-  · simp [h1]
+  simp only [Lib.norN, testBit_not1, testBit_orN rw i ins hne]
+  by_cases h1 : i < rw <;> simp [h1]
+
+/-- the former witness of the repaired defect C08-nor-wide now gives `~(a0|a1|a2|a3) mod 2^8` -/
+theorem norN_wide_fixed : Lib.norN 8 [41, 54, 127, 1] = 128 ∧ LSpec.norN 8 [41, 54, 127, 1] = 128 := by decide
+
+/-- Nor2 still sizes `Mid` by operand `a`: with `b` and `r` wider than `a` the upper bits of `b` are dropped before the Not.
+    `nor2_spec` carries the forced hypothesis; this is the negative on a concrete input (expected `~(0|12) mod 16 = 3`). -/
+theorem nor2_wide_counterexample : Lib.nor2 2 4 0 12 = 15 ∧ LSpec.norN 4 [0, 12] = 3 := by decide
 
 
 theorem b2n_eq_toNat (t : Bool) : b2n t = t.toNat := by cases t <;> rfl
@@ -888,7 +907,7 @@ theorem priorityEncoder_docstring_counterexample :
 
 theorem xor2_eq_zero_iff (aw bw a b : Nat) (ha : a < 2 ^ aw) (hb : b < 2 ^ bw) (hb' : b < 2 ^ aw) :
     Lib.xor2 aw bw aw a b = 0 ↔ a = b := by
-  have hx := fun i => testBit_xor2 aw bw aw a b i (Nat.le_refl _) hb
+  have hx := fun i => testBit_xor2 aw bw aw a b i (Or.inl (Nat.le_refl _)) hb
   constructor
   · intro h0
     rw [eq_iff_testBit_lt a b aw ha hb']
@@ -904,7 +923,12 @@ theorem xor2_eq_zero_iff (aw bw a b : Nat) (ha : a < 2 ^ aw) (hb : b < 2 ^ bw) (
     rw [hx i]; simp
 
 theorem xor2_lt (aw bw a b : Nat) (hb : b < 2 ^ bw) : Lib.xor2 aw bw aw a b < 2 ^ aw := by
-  rw [xor2_spec aw bw aw a b (Nat.le_refl _) hb]
+  have : Lib.xor2 aw bw aw a b = LSpec.xorN aw [a, b] := by
+    apply eq_ofBitFn
+    intro i
+    rw [testBit_xor2 aw bw aw a b i (Or.inl (Nat.le_refl _)) hb]
+    simp
+  rw [this]
   exact ofBitFn_lt _ _
 
 /-- Equal(a, b, r): active exactly when `a == b`, every width ≥ 1 (1-bit result wire) -/
